@@ -15,7 +15,9 @@ RULE = (
     "one probe per (node kind, clause/field) of Python 3.12's abstract grammar placed in an otherwise valid @guppy function: "
     "`with` = clause populated, `base` = same function minus the clause (or with the alternative value). The real compiler "
     "checks and lowers both; a case is non-trivial when the probe is accepted (then the canonicalised lowered Hugr must differ "
-    "from the base) — rejected probes only confirm the rejection. Static table rows (visitor x kind x field) are all enumerated."
+    "from the base) — rejected probes only confirm the rejection. Static table rows (visitor x kind x field) are all enumerated. "
+    "Must-reject probes: 42 statement/expression positions x ill-formed operands (undefined, defined-later, maybe-undefined name, consumed qubit); "
+    "the position with a well-formed operand must be accepted (non-vacuous), with the ill-formed one `accepted` is the failing input."
 )
 ASSUMPTIONS = [
     "CPython 3.12 `ast` class docstrings give the ASDL (kinds, fields, field types); `ast.parse` produces exactly those nodes",
@@ -36,7 +38,8 @@ MANIFEST = {
     "Python 3.12's abstract grammar (fixed list in Spec/C32.lean, proved exhaustive w.r.t. the regenerated grammar by "
     "`grammar_classified`), the disposition computed from the per-visitor read/guard/visit tables that are re-extracted from "
     "/repo's CFGBuilder/ExprBuilder/BranchBuilder/StmtChecker/ExprSynthesizer/ExprChecker sources on every run is not `ignored`; "
-    "`generic_visit_rejects` ties the nodeRejected disposition to the two generic_visit methods. The extractor is cross-checked on every "
+    "`generic_visit_rejects` ties the nodeRejected disposition to the two generic_visit methods; `value_statements_recorded`: every value-bearing "
+    "statement is appended to its basic block, an expression statement being dropped only when its value is a %tmp variable. The extractor is cross-checked on every "
     "run by ~90 probe programs compiled and lowered by the real compiler (accepted probe with Hugr identical to the clause-free base = failing input).",
     "level_note": "The quantifier is finite (grammar table), so `decide` is a complete proof about the extracted table; trusted: the extractor's "
     "notion of 'read' (syntactic attribute load on a variable typed by annotations/visit_K naming/ASDL chains), the pipeline shape in "
@@ -137,6 +140,16 @@ def render(tab) -> str:
         "]",
         "",
         "def tables : Tables := ⟨grammar, kindCat, visits, reads, generic⟩",
+        "",
+        "inductive SkipAtom where | tmpVar | isinstance | other | unanalysable deriving DecidableEq, Repr",
+        "inductive RecordHow where | always | never | guarded (skipWhen : List SkipAtom) deriving DecidableEq, Repr",
+        "",
+        "/-- `CFGBuilder.visit_K`: is the statement appended to a basic block (`bb.statements.append`), and if only under",
+        "    a condition, the literals of the conjunction under which it is NOT (classified) -/",
+        "def records : List (Kind × RecordHow) := [",
+        ",\n".join(f"  (.{k}, " + (f".{h}" if h != "guarded" else ".guarded [" + ", ".join("." + a for a in at) + "]") + ")"
+                    for k, h, at in tab["records"] if k in kcat),
+        "]",
         "",
         "def kindNames : List (String × Kind) := [",
         ",\n".join(f'  ("{k}", .{k})' for k in kinds),
@@ -365,6 +378,131 @@ def _classify(with_body, base_body):
     return ow, dw  # crash | pysyntax
 
 
+# ---------------------------------------------------------------------- must-reject probes
+# Second dimension: a construct that *looks at* its operand must notice an ill-formed operand.
+# HOSTS: every statement / expression position with a hole `@` for an operand of type int (`i`) or bool (`b`).
+# The host with a well-formed operand (`x` / `b`) must be ACCEPTED (otherwise the probe is vacuous and is
+# only counted); with each ill-formed operand it must be REJECTED — "accepted" is the failing input.
+HOSTS = [
+    ("Expr.value", "i", "@\nreturn x"),
+    ("Expr.value(bool)", "b", "@\nreturn x"),
+    ("Expr.value(paren)", "i", "(@)\nreturn x"),
+    ("Assign.value", "i", "w = @\nreturn x"),
+    ("Assign.value(tuple)", "i", "w, v = @, 1\nreturn x"),
+    ("AugAssign.value", "i", "x += @\nreturn x"),
+    ("AugAssign.target", "i", "@ += 1\nreturn x"),
+    ("AnnAssign.value", "i", "w: int = @\nreturn x"),
+    ("Return.value", "i", "return @"),
+    ("If.test", "b", "if @:\n    x = 1\nreturn x"),
+    ("While.test", "b", "while @:\n    return 1\nreturn x"),
+    ("For.iter", "i", "for _i in range(@):\n    x += 1\nreturn x"),
+    ("IfExp.test", "b", "w = 1 if @ else 2\nreturn x"),
+    ("IfExp.body", "i", "w = @ if b else 2\nreturn x"),
+    ("IfExp.orelse", "i", "w = 1 if b else @\nreturn x"),
+    ("IfExp.stmt", "i", "@ if b else 2\nreturn x"),
+    ("BoolOp.values0", "b", "w = @ and b\nreturn x"),
+    ("BoolOp.values1", "b", "w = b or @\nreturn x"),
+    ("BoolOp.stmt", "b", "b and @\nreturn x"),
+    ("UnaryOp.not", "b", "w = not @\nreturn x"),
+    ("UnaryOp.neg", "i", "w = -@\nreturn x"),
+    ("UnaryOp.stmt", "i", "-@\nreturn x"),
+    ("BinOp.left", "i", "w = @ + 1\nreturn x"),
+    ("BinOp.right", "i", "w = 1 + @\nreturn x"),
+    ("BinOp.stmt", "i", "1 + @\nreturn x"),
+    ("Compare.left", "i", "w = @ < 1\nreturn x"),
+    ("Compare.right", "i", "w = 1 < @\nreturn x"),
+    ("Compare.chain", "i", "w = 0 < x < @\nreturn x"),
+    ("Call.args", "i", "w = g0(@)\nreturn x"),
+    ("Call.args(stmt)", "i", "g0(@)\nreturn x"),
+    ("Call.func", "f", "w = @(1)\nreturn x"),
+    ("Tuple.elts", "i", "w = (1, @)\nreturn x"),
+    ("Tuple.stmt", "i", "(1, @)\nreturn x"),
+    ("Subscript.value", "t", "w = @[0]\nreturn x"),
+    ("Subscript.slice", "i", "t0 = array(1, 2)\nw = t0[@]\nreturn x"),
+    ("Attribute.value", "s", "w = @.a\nreturn x"),
+    ("NamedExpr.value", "i", "w = (v := @) + 1\nreturn x"),
+    ("GeneratorExp.iter", "r", "w = array(k for k in @)\nreturn x"),
+    ("GeneratorExp.elt", "i", "w = array(@ for k in range(3))\nreturn x"),
+    ("FunctionDef.body", "y", "def inner(y: int) -> int:\n    @\n    return y\nreturn inner(x)"),
+    ("FunctionDef.body(value)", "y", "def inner(y: int) -> int:\n    return @ + 1\nreturn inner(x)"),
+    ("comptime arg", "c", "w = comptime(@)\nreturn x"),
+]
+GOOD = {"r": "range(3)", "y": "y", "i": "x", "b": "b", "f": "g0", "t": "(x, x)", "s": "S0(1, 2)", "c": "GLOBAL_C"}
+# ill-formed operands: (name, statements placed before the host, operand text)
+ILL = [
+    ("undefined", "", "not_defined_anywhere"),
+    ("defined-later", "", "later_v"),          # + `later_v = 1` appended after the host
+    ("maybe-undefined", "if b:\n    maybe_v = 1", "maybe_v"),
+]
+# linear operand that has already been consumed: hosts with a qubit hole
+LINEAR_HOSTS = [
+    ("Expr.value", "@"),
+    ("Call.args(borrow)", "h(@)"),
+    ("Assign.value", "w = @\ndiscard(w)"),
+    ("Tuple.elts", "w = (@, 1)\ndiscard(w[0])"),
+]
+MR_PRELUDE = "from guppylang.std.quantum import qubit, h, discard\nGLOBAL_C = 3\n"
+
+
+def _mr_compile(sig, ret, body):
+    import feed
+
+    src = PRELUDE_EXTRA + MR_PRELUDE + f"@guppy\ndef f({sig}) -> {ret}:\n" + _ind(body) + "\n"
+    try:
+        m = feed.load(src)
+    except SyntaxError as e:
+        return "pysyntax", str(e)[:60]
+    try:
+        o, e = feed.check_outcome(m.f)
+        return ("accepted", "") if o == "ok" else (("rejected" if o == "user" else "crash"), feed.err_class(e))
+    finally:
+        feed.unload(m)
+
+
+def must_reject_cases(ctx):
+    cases = []
+    for name, ty, host in HOSTS:
+        good = host.replace("@", GOOD[ty])
+        for ill, pre, operand in ILL:
+            body = (pre + "\n" if pre else "") + host.replace("@", operand)
+            if ill == "defined-later":
+                # define the name right after the (top-level) statement that contains the hole
+                lines = body.split("\n")
+                k = max(i for i, l in enumerate(lines) if operand in l)
+                while k > 0 and lines[k].startswith(" "):
+                    k -= 1          # top-level statement the hole belongs to
+                if lines[k].startswith("return"):
+                    continue        # nothing executes after it
+                j = k + 1
+                while j < len(lines) and lines[j].startswith(" "):
+                    j += 1
+                lines.insert(j, f"{operand} = 1")
+                body = "\n".join(lines)
+            cases.append((name, ill, "x: int, b: bool", "int", good, body))
+    for name, host in LINEAR_HOSTS:
+        good = host.replace("@", "q") + ("\ndiscard(q)" if "discard(w" not in host else "")
+        bad = "discard(q)\n" + host.replace("@", "q")
+        cases.append((name, "consumed-linear", "q: qubit @owned", "None", good, bad))
+    return cases
+
+
+def tie_must_reject(ctx):
+    good_seen = {}
+    for name, ill, sig, ret, good, bad in must_reject_cases(ctx):
+        gk = (sig, good)
+        if gk not in good_seen:
+            good_seen[gk] = _mr_compile(sig, ret, good)
+        g, gd = good_seen[gk]
+        r, rd = _mr_compile(sig, ret, bad)
+        ctx.count(["must-reject", name, ill, bad], nontrivial=(g == "accepted"), kind=f"mustreject:{ill}:{'vacuous-' if g != 'accepted' else ''}{r}")
+        rep = {"host": name, "ill": ill, "sig": sig, "ret": ret, "with": bad, "good": good, "good_outcome": [g, gd], "real": r, "detail": rd}
+        key = f"mustreject:{name}:{ill}:{bad!r}"
+        if r == "accepted":
+            ctx.violation(key, f"{name}: operand `{ill}` is silently accepted (the construct never looked at it): `{bad}`", rep)
+        elif r == "crash":
+            ctx.violation(key, f"{name}: operand `{ill}` crashes the compiler ({rd}) on `{bad}`", rep)
+
+
 def tie(ctx):
     rng = ctx.rng
     cases = []
@@ -409,6 +547,9 @@ def tie(ctx):
         if m == "unknown":
             ctx.broke(f"probe names unknown grammar position {k}.{f}")
     ctx.extra["probe_kinds"] = len(keys)
+    if not getattr(ctx, "_c32_mr_done", False):
+        ctx._c32_mr_done = True
+        tie_must_reject(ctx)
 
 
 def search(ctx, why):
